@@ -31,6 +31,10 @@ def _quiet_unraisable(unraisable):
 
 
 import sys  # noqa: E402
+import warnings  # noqa: E402
+
+# a refused ctx.spawn leaves the coroutine object it was handed un-awaited: expected, not an observation
+warnings.filterwarnings("ignore", category=RuntimeWarning, message="coroutine .* was never awaited")
 
 sys.unraisablehook = _quiet_unraisable
 
@@ -147,6 +151,7 @@ class World:
         self.errs = {}  # tag -> exception object
         self.disps = {}
         self.completions = []
+        self.wills = {}
         self.cap = _Capture()
         self.root = logging.getLogger()
         self._root_level = self.root.level
@@ -262,6 +267,17 @@ class World:
             self.at[name] = self.probe()
             try:
                 op = await self.gate(name)
+            except asyncio.CancelledError:
+                # a task with a "will" spawns one more task through the context from its cancellation handler
+                chooser = self.wills.pop(name, None)
+                child = chooser() if chooser is not None else None  # the heir is chosen when the will is executed
+                if child is not None and not self.closing:
+                    try:
+                        self.tasks[child] = ctx.spawn(self.run_task, child)
+                        self.events.append((name, "will", child, "spawned"))
+                    except RuntimeError as e:
+                        self.events.append((name, "will", child, "refused: " + str(e)[:60]))
+                raise
             finally:
                 self.at.pop(name, None)
             k = op[0]
@@ -337,6 +353,8 @@ class World:
                 r = op[1]()
                 if asyncio.iscoroutine(r):
                     await r
+            elif k == "will":
+                self.wills[name] = op[1]
             elif k == "nop":
                 pass
             else:
